@@ -36,8 +36,7 @@ LIFECYCLE_HANDLERS = {'_process_activate': 'ACTIVATE', '_process_revoke': 'REVOK
 
 def run(ctx):
     src = ctx.src
-    ai = EngineAI(src)
-    ai.run_all()
+    ai = EngineAI.shared(src)
     m = ai.m
     for rid, text in (
         ('C04.R1', '.state of a managed object is stored only by CryptographicObject.__init__ (PRE_ACTIVE) and by the Activate, Revoke and Destroy handlers'),
